@@ -80,7 +80,7 @@ func hInternalScan(N, L int, kinds []base.InternalKeyKind, bounded bool) {
 				}
 			}
 			onKey := w.key == k
-			isSet := sym.And(emittedPoint, sym.And(w.kind == hKSet, onKey))
+			isSet := sym.And(emittedPoint, sym.And(sym.Or(w.kind == hKSet, w.kind == hKSetDel), onKey))
 			isDel := sym.Or(sym.And(emittedPoint, sym.And(hIsPointTomb(w.kind), onKey)), sym.And(w.kind == hKRDel, coveredByEmittedSpan))
 			v := uint64(w.val)
 			st = hModelVal{
@@ -97,7 +97,7 @@ func hInternalScan(N, L int, kinds []base.InternalKeyKind, bounded bool) {
 	sym.Reach("scanned")
 }
 
-var hScanKinds = []base.InternalKeyKind{hKSet, hKDel, hKDSized, hKRDel}
+var hScanKinds = []base.InternalKeyKind{hKSet, hKDel, hKDSized, hKRDel, hKSetDel}
 
 func VerifHarness_C45_InternalScan() { hInternalScan(3, 2, hScanKinds, false) }
 
